@@ -13,6 +13,7 @@ import WrglModel.Driver.C17
 import WrglModel.Driver.C05
 import WrglModel.Driver.C08
 import WrglModel.Driver.C07
+import WrglModel.Driver.C12
 open Lean Wrgl.Drv
 
 def dispatch (prop op : String) (input impl : Json) : Except String Json :=
@@ -30,6 +31,7 @@ def dispatch (prop op : String) (input impl : Json) : Except String Json :=
   | "C05" => handleC05 op input impl
   | "C08" => handleC08 op input impl
   | "C07" => handleC07 op input impl
+  | "C12" => handleC12 op input impl
   | "C18" => handleC18 op input impl
   | _ => .error s!"unknown property {prop}"
 
